@@ -160,7 +160,7 @@ func trunc(s string, n int) string {
 // refreshed only at the step at which the number of distinct named signers reaches AttestMinToPass.
 func (w *c01World) requestAttest(p chain.Account, f *sFile) (string, string) {
 	before := w.state()
-	res := w.f.Exec(storagetypes.NewMsgRequestAttestationForm(p.Bech, f.Merkle, f.Owner, f.Start))
+	res := w.f.Exec(newMsgRequestAttestationForm(p.Bech, f.Merkle, f.Owner, f.Start))
 	w.logf("request attestation form by %s for %s -> %s", short(p.Bech), f.id(), res)
 	for k, b := range before {
 		if a := w.state()[k]; a != b {
@@ -188,7 +188,7 @@ func (w *c01World) attest(signer, prover chain.Account, f *sFile) (string, strin
 		signed[signer.Bech] = true
 	}
 	fire := had && named && int64(len(signed)) >= w.params().AttestMinToPass
-	res := w.f.Exec(storagetypes.NewMsgAttest(signer.Bech, prover.Bech, f.Merkle, f.Owner, f.Start))
+	res := w.f.Exec(newMsgAttest(signer.Bech, prover.Bech, f.Merkle, f.Owner, f.Start))
 	w.logf("attest by %s about %s on %s (form=%v named=%v distinct signers=%d) -> %s", short(signer.Bech), short(prover.Bech), f.id(), had, named, len(signed), res)
 	after := w.state()
 	pk := pairKey(prover.Bech, f)
@@ -808,7 +808,7 @@ func TestC01(t *testing.T) {
 			"shutdown": func(rt *rapid.T) { // a provider record goes away (collateral refunded); files it proves keep listing it
 				a := w.accounts[rapid.IntRange(0, len(w.accounts)-1).Draw(rt, "who")]
 				before := w.state()
-				res := w.f.Exec(storagetypes.NewMsgShutdownProvider(a.Bech))
+				res := w.f.Exec(newMsgShutdownProvider(a.Bech))
 				w.logf("shutdown provider %s -> %s", short(a.Bech), res)
 				for k, b := range before {
 					if a2 := w.state()[k]; a2 != b {
